@@ -137,18 +137,31 @@ def run(ctx):
         tmp = tempfile.mkdtemp(prefix="ngv_c19_")
         try:
             img, a, dt, vox, mode = gen_volume(rng)
+            while it < 5 and max(a.shape) <= 64:          # the forced option interactions need several scales
+                img, a, dt, vox, mode = gen_volume(rng)
             vol = os.path.join(tmp, "vol.nii")
             nibabel.save(img, vol)
             enc = rng.choice([None, None, "raw", "compressed_segmentation", "compressed_segmentation"] +
                              (["jpeg"] if dt == "uint8" else []))
-            if it == 0:
-                enc = "compressed_segmentation"       # a non-default encoding on a multi-scale volume every run
             ty = rng.choice([None, None, "image", "segmentation"])
             method = rng.choice(["average", "average", "majority", "stride", "auto"])
+            outside = str(rng.choice([0, 7, 255])) if rng.random() < 0.45 else None
+            # option interactions that every run must contain (then random combinations)
+            forced = [dict(enc="compressed_segmentation"),                       # non-default encoding, several scales
+                      dict(ty="segmentation", method="auto", enc=None),          # method resolved from --type
+                      dict(ty="image", method="auto", enc=None),
+                      dict(method="average", outside="7", enc=None, ty=None),    # --outside-value reaches the downscaler
+                      dict(ty="segmentation", method=None, enc="compressed_segmentation")]  # default method = auto
+            if it < len(forced):
+                f = forced[it]
+                enc = f.get("enc", enc)
+                ty = f.get("ty", ty)
+                method = f.get("method", method)
+                outside = f.get("outside", outside)
             # every option the two programs share is drawn: downscaling (method, outside value), storage
-            down = ["--downscaling-method", method]
-            if rng.random() < 0.45:
-                down += ["--outside-value", str(rng.choice([0, 7, 255]))]
+            down = ["--downscaling-method", method] if method else []
+            if outside is not None:
+                down += ["--outside-value", outside]
             store = []
             if rng.random() < 0.5:
                 store.append("--flat")
@@ -162,7 +175,7 @@ def run(ctx):
             info_opts = (["--encoding", enc] if enc else []) + (["--type", ty] if ty else [])
             sub = rng.random() < 0.2
             desc = {"volume": {"dtype": dt, "shape": list(a.shape), "voxel_size": vox, "values": mode},
-                    "encoding": enc, "type": ty, "downscaling": down[1:], "storage": store, "input": inp,
+                    "encoding": enc, "type": ty, "downscaling": down, "storage": store, "input": inp,
                     "subprocess": sub}
             A, B = os.path.join(tmp, "A"), os.path.join(tmp, "B")
             os.makedirs(B)
@@ -183,7 +196,7 @@ def run(ctx):
                     failed_step = name
                     break
             ctx.hist("encoding", enc)
-            ctx.hist("method", method)
+            ctx.hist("method", method or "(default)")
             ctx.hist("run_as", "subprocess" if sub else "in-process")
             if rcA != 0 or rcB != 0:
                 ctx.hist("status", f"A={int(rcA != 0)} B={int(rcB != 0)}")
